@@ -311,6 +311,7 @@ package rosmar
 //@ fn (*Collection).Get
 //@   requires DocInv(doc(c.id, key))
 //@   modular
+//@   flag outparams=outVal
 //@   ensures [C01,C11:Get.frame] db == old(db)
 //@
 //@ fn (*dcpFeed).writeCheckpoint
@@ -676,3 +677,26 @@ package rosmar
 //@   ensures [C03:Update.stores-callback-result] count("call:Collection.WriteCas") >= 1 && !isnull(cbret(0)) ==> callarg("Collection.WriteCas", 4) == cbret(0)
 //@   ensures [C03:Update.success-is-writecas] err == nil && casOut != 0 ==> count("call:Collection.WriteCas") >= 1 && callret("Collection.WriteCas", 1) == nil && casOut == callret("Collection.WriteCas", 0)
 //@   ensures [C20:Update.unlocked] any: nolocks()
+//@
+//@ fn evalSubdocPath
+//@   modular
+//@   flag trusted=json-tree-walk
+//@   ensures isnull(result0) ==> result1 != nil
+//@ fn upsertSubdocValue
+//@   modular
+//@   flag trusted=json-tree-edit
+//@ fn parseSubdocPath
+//@   modular
+//@   ensures result1 == nil ==> len(result0) >= 1
+//@   ensures [C18:parseSubdocPath.nonempty] result1 == nil ==> len(result0) >= 1
+//@
+//@ fn (*Collection).subdocWrite
+//@   loop 1 invariant [C18:subdocWrite.loop] true
+//@   loop 1 body [C02,C18:subdocWrite.retry-only-without-cas] cas == 0 && iter("call:Collection.WriteCas") == 1 && iscasmismatch(callret("Collection.WriteCas", 1))
+//@   ensures [C02,C18:subdocWrite.cas-honoured]   cas != 0 && count("call:Collection.Get") >= 1 && callret("Collection.Get", 0) != cas && callret("parseSubdocPath", 1) == nil ==> err != nil && iter("call:Collection.WriteCas") == 0
+//@   ensures [C02,C18:subdocWrite.cas-class]      cas != 0 && count("call:Collection.Get") >= 1 && callret("Collection.Get", 0) != cas && (callret("Collection.Get", 1) == nil || (!insert && ismissing(callret("Collection.Get", 1)))) ==> iscasmismatch(err) && err.Expected == cas && err.Actual == callret("Collection.Get", 0)
+//@   ensures [C03,C18:subdocWrite.writes-on-version-read] iter("call:Collection.WriteCas") >= 1 ==> callarg("Collection.WriteCas", 3) == callret("Collection.Get", 0) && callarg("Collection.WriteCas", 1) == key && callarg("Collection.WriteCas", 0) == c && callarg("Collection.WriteCas", 5) == 0 && callarg("Collection.Get", 1) == key
+//@   ensures [C18:subdocWrite.insert-needs-doc]   insert && count("call:Collection.Get") >= 1 && callret("Collection.Get", 1) != nil ==> err != nil && iter("call:Collection.WriteCas") == 0
+//@   ensures [C18:subdocWrite.success]            err == nil ==> iter("call:Collection.WriteCas") == 1 && callret("Collection.WriteCas", 1) == nil && casOut == callret("Collection.WriteCas", 0)
+//@   ensures [C03,C18:subdocWrite.only-conditional-writes] count("sql") == 0
+//@   ensures [C20:subdocWrite.unlocked] any: nolocks()
